@@ -236,9 +236,14 @@ type c07World struct {
 var c07WorldN int
 
 func c07NewWorld(r *rand.Rand, chainID string, nvals, maxVals int, maxPower int64, churn int, secp int) *c07World {
+	return c07NewWorldAt(r, chainID, nvals, maxVals, maxPower, churn, secp, time.Date(2030, 1, 1, 0, 0, 0, 0, time.UTC).Add(time.Duration(r.Intn(1e9))))
+}
+
+// c07NewWorldAt: the chain's block 0 would have time t0 (used for the chain a client is upgraded to)
+func c07NewWorldAt(r *rand.Rand, chainID string, nvals, maxVals int, maxPower int64, churn int, secp int, t0 time.Time) *c07World {
 	c07WorldN++
 	w := &c07World{r: r, id: fmt.Sprintf("w%d", c07WorldN), ChainID: chainID, maxVals: maxVals, maxPower: maxPower, churn: churn,
-		t0: time.Date(2030, 1, 1, 0, 0, 0, 0, time.UTC).Add(time.Duration(r.Intn(1e9))), step: 10 * time.Minute, blocks: map[int64]*c07Block{}}
+		t0: t0, step: 10 * time.Minute, blocks: map[int64]*c07Block{}}
 	_ = c07Safe(func() error { w.Rev = clienttypes.ParseChainID(chainID); return nil })
 	for i := 0; i < maxVals+3; i++ {
 		w.pool = append(w.pool, c07NewKey(fmt.Sprintf("c07-%d-%s-%d", envSeed(), w.id, i), i < secp))
@@ -425,6 +430,9 @@ type c07Step struct {
 	now time.Time
 	cfg c07ClientCfg
 	g   int64 // trusted height used by the honest version
+	// revision of the client's latest height when it differs from the revision of the trusted state (after an upgrade)
+	otherRev    uint64
+	hasOtherRev bool
 }
 
 type c07Perturb struct {
@@ -515,6 +523,20 @@ func c07Perturbs() []c07Perturb {
 			}
 			st.sp.ChainID, _ = clienttypes.SetRevisionNumber(st.sp.ChainID, st.w.Rev+1)
 			st.sp.TrustedHeight.RevisionNumber++
+			return true
+		}},
+		{"chain-id-latest-revision", func(st *c07Step) bool {
+			if !st.hasOtherRev || !clienttypes.IsRevisionFormat(st.sp.ChainID) {
+				return false
+			}
+			st.sp.ChainID, _ = clienttypes.SetRevisionNumber(st.sp.ChainID, st.otherRev)
+			return true
+		}},
+		{"chain-id-third-revision", func(st *c07Step) bool {
+			if !st.hasOtherRev || !clienttypes.IsRevisionFormat(st.sp.ChainID) {
+				return false
+			}
+			st.sp.ChainID, _ = clienttypes.SetRevisionNumber(st.sp.ChainID, st.otherRev+st.w.Rev+1)
 			return true
 		}},
 		{"chain-id-revision-dropped", func(st *c07Step) bool {
